@@ -164,7 +164,13 @@ func (v Value) IsNaN() bool {
 		return false
 	}
 
-	return math.IsNaN(v.float64())
+	// The conversion of an object runs script code (valueOf, toString) that can throw;
+	// a value whose conversion fails does not convert to NaN.
+	result := false
+	catchPanic(func() { //nolint:errcheck, gosec
+		result = math.IsNaN(v.float64())
+	})
+	return result
 }
 
 // IsString will return true if value is a string (primitive).
